@@ -7,7 +7,7 @@
 // The collector is assembled from the repository's own mocks and started with the real Start().
 // Every worker is parked with the code's own `pause` channel; the harness then calls the real step
 // functions itself: processSpan (span arrival), sendExpiredTracesInCache (after making exactly one
-// trace due: the fake clock never advances), sendTraces (on one decided trace at a time),
+// trace due: the fake clock never advances), the collector's own sendTraces goroutine (handed one decided trace at a time),
 // ProcessSpanImmediately (stress relief).  A reload changes the MockConfig and goes through
 // Config.Reload() -> monitor() -> reloadConfigs() -> the workers' own reload branch.
 // The sampler the factory builds is wrapped so that its answer is reported (`ext dec`); the real
@@ -16,7 +16,7 @@
 // case header: host= reason= sc= cnt= dry= (0|1)  attrs=<k:v;k:v|->  srate=<stress SamplingRate>
 // ops:
 //
-//	span <tid> <sid> <s|e|l> <root> <client rate> <cls>    obs  buf | late <span> | latedrop
+//	span <tid> <sid> <s|e|l> <root> <client rate> <cls> [<carried original_sample_rate>]   obs  buf | late <span> | latedrop
 //	decide <tid>                                           obs  none | dropped | queued     ext dec
 //	decidex <tid> <rate> <keep> <reason> <key>             same, scripted sampler answer
 //	drain                                                  obs  empty | sent <tid> <span>…
@@ -167,7 +167,18 @@ func (comp) Gen(r *kit.Rng, maxLen int, tier string) kit.Case {
 		} else {
 			client = r.Next() % (1 << 31)
 		}
-		return fmt.Sprintf("%s %d %s %d %d %s", tid, sid, kind, root, client, clsVals[r.Intn(len(clsVals))])
+		carried := ""
+		if r.Chance(25) { // the payload already carries meta.refinery.original_sample_rate
+			switch r.Intn(4) {
+			case 0:
+				carried = fmt.Sprintf(" %d", client)
+			case 1:
+				carried = " 0"
+			default:
+				carried = fmt.Sprintf(" %d", []uint64{1, 7, 35, 1<<31 - 1, client + 1}[r.Intn(5)])
+			}
+		}
+		return fmt.Sprintf("%s %d %s %d %d %s%s", tid, sid, kind, root, client, clsVals[r.Intn(len(clsVals))], carried)
 	}
 	for i := 0; i < n; i++ {
 		switch r.Pick(42, 10, 9, 14, 11, 9, 4) {
@@ -373,11 +384,40 @@ func (comp) NewCase(h []string) kit.Runner {
 		panic(err)
 	}
 	hn, _ := os.Hostname()
-	return &runner{conf: conf, clock: clock, tx: tx, ptx: ptx, sf: sf, ps: ps, coll: c, hn: hn,
+	r := &runner{conf: conf, clock: clock, tx: tx, ptx: ptx, sf: sf, ps: ps, coll: c, hn: hn,
 		ctl: collect.VerifDecorateTakeOver(c)}
+	// make sure the sendTraces goroutine is ranging over the collector's own channel, then gate it
+	r.ctl.Barrier(r.sentinel())
+	r.untilSentinel()
+	r.ctl.Gate()
+	return r
+}
+
+const sentinelSid = int64(-1)
+
+func (r *runner) sentinel() *types.Span {
+	return &types.Span{TraceID: "verif-sentinel", Event: &types.Event{Data: types.NewPayload(r.conf, map[string]any{"sid": sentinelSid})}}
+}
+
+// untilSentinel collects what the sendTraces goroutine forwards up to the sentinel span.
+func (r *runner) untilSentinel() []string {
+	var out []string
+	to := time.After(stuck)
+	for {
+		select {
+		case ev := <-r.tx.Events:
+			if v, ok := ev.Data.Get("sid").(int64); ok && v == sentinelSid {
+				return out
+			}
+			out = append(out, r.describe(ev))
+		case <-to:
+			panic("stuck waiting for the sendTraces goroutine")
+		}
+	}
 }
 
 func (r *runner) Close() {
+	r.ctl.Restore()
 	r.ctl.Release()
 	r.coll.Stop()
 	r.sf.Stop()
@@ -464,6 +504,10 @@ func (r *runner) mkSpan(op []string) *types.Span {
 		SampleRate:  uint(client),
 		Data:        types.NewPayload(r.conf, map[string]any{"sid": sid, "cls": op[6]}),
 	}
+	if len(op) > 7 { // the payload already carries meta.refinery.original_sample_rate (dedicated field, as ExtractMetadata fills it)
+		v, _ := strconv.ParseInt(op[7], 10, 64)
+		ev.Data.MetaRefineryOriginalSampleRate = v
+	}
 	switch op[3] {
 	case "e":
 		ev.Data.MetaAnnotationType = "span_event"
@@ -493,7 +537,7 @@ func (r *runner) decide(tid string, stub *collect.VerifDecorateDecision) (string
 func (r *runner) Do(op []string) (string, bool) {
 	switch op[0] {
 	case "span":
-		if len(op) != 7 {
+		if len(op) != 7 && len(op) != 8 {
 			return "bad-op", true
 		}
 		sp := r.mkSpan(op)
@@ -521,10 +565,11 @@ func (r *runner) Do(op []string) (string, bool) {
 		if !ok {
 			return "empty", true
 		}
-		evs := r.take()
+		r.ctl.Barrier(r.sentinel())
+		evs := r.untilSentinel()
 		return strings.TrimSpace("sent " + tid + " " + strings.Join(evs, " ")), true
 	case "stress":
-		if len(op) != 7 {
+		if len(op) != 7 && len(op) != 8 {
 			return "bad-op", true
 		}
 		sp := r.mkSpan(op)
